@@ -4388,7 +4388,7 @@ class FlowIR(object):
             # VV: adding floats is hard, let's assume that there're at most 2 decimals
             int_weights = [int(e * 1000) for e in weights]
 
-            if sum(int_weights) != 1000:
+            if sum(int_weights) != 1000 or any(e < 0 for e in weights):
                 fallbackWeight = int(1000 / num_stages) / 1000.0
 
                 flowirLogger.log(19, "Stage weights do not add to one: %s = %3.3lf\n" % (weights, sum(weights)))
